@@ -542,3 +542,16 @@ Proof.
   cbn [fst snd]. rewrite list_files_gc_dir_other by congruence.
   rewrite (list_files_flat q s ms ND I). destruct s; reflexivity.
 Qed.
+
+(** GC does not look at the host, user and process id in the file names: files
+    left by another process (or machine, or user) of the same program count and
+    go like the logger's own. *)
+Lemma map_filter_comp {A B} (f : A -> B) (g : B -> bool) l :
+  map f (filter (fun x => g (f x)) l) = filter g (map f l).
+Proof. induction l as [|x l IH]; [reflexivity|]. cbn. destruct (g (f x)); cbn; rewrite IH; reflexivity. Qed.
+
+Theorem gc_ignores_host_user_pid p b l : map n_d (gc_names p b l) = gc_dir p b (map n_d l).
+Proof.
+  unfold gc_names, gc_dir.
+  exact (map_filter_comp n_d (fun x => negb (is_prog p x) || stamp_in (gc b (list_files p (map n_d l))) (d_file x)) l).
+Qed.
